@@ -300,10 +300,15 @@ def rule_S(ck):
     # the tree module `paths()` and `is_query()` are asked of the same field of the declaration. Spellings taken from
     # another header (an alias, a legacy form) but filed under the kind of the primary one occupy the wrong slot - the
     # collision with a handler of their real kind goes unnoticed and a collision-free set is refused.
-    def chain(e):
+    def chain(e, lets=None):
         ch = []
+        hops = 0
         while isinstance(e, dict):
             k_ = e.get("k")
+            if k_ == "Path" and lets and (e.get("res") or {}).get("r") == "Local" and e["res"].get("id") in lets and hops < 8:
+                e = lets[e["res"]["id"]]        # a local bound by `let x = <expr>`: the expression it stands for
+                hops += 1
+                continue
             if k_ in ("AddrOf", "Unary", "Try", "Paren", "DropTemps"):
                 e = e.get("e")
             elif k_ == "MethodCall" and e["name"] in ("clone", "as_ref", "borrow", "deref", "as_deref", "iter"):
@@ -318,11 +323,16 @@ def rule_S(ck):
     for b in m.facts["bodies"]:
         if not b["def"].startswith("microscpi_macros::tree::"):
             continue
+        lets = {}
+        for x in hir.walk(b["value"]):
+            for st_ in (x.get("stmts") or []) if x.get("k") == "Block" else ():
+                if isinstance(st_, dict) and st_.get("k") == "Let" and st_.get("init") and (st_.get("pat") or {}).get("k") == "Bind":
+                    lets[st_["pat"].get("id")] = st_["init"]
         for x in hir.walk(b["value"]):
             if x.get("k") == "MethodCall" and (x.get("callee") or "").endswith("::Command::paths"):
-                src_paths.setdefault(chain(x["recv"]), hir.loc(x))
+                src_paths.setdefault(chain(x["recv"], lets), hir.loc(x))
             if x.get("k") == "MethodCall" and (x.get("callee") or "").endswith("::Command::is_query"):
-                src_kind.setdefault(chain(x["recv"]), hir.loc(x))
+                src_kind.setdefault(chain(x["recv"], lets), hir.loc(x))
     if src_paths and src_kind and all(src_kind):
         for ch_, loc_ in sorted(src_paths.items()):
             ck.judge(ch_ in src_kind, "C14-S", "tree:spellings-and-kind-from-one-header:%s" % (".".join(ch_) or "<other value>"),
